@@ -17,14 +17,19 @@ StateMatches(e) ==
          ELSE ~st.open
 
 ResMatches(e) ==
-  e.op = "after" =>
-     /\ e.res.kind = res'.kind
-     /\ res'.kind = "items" => e.res.items = Item2(res'.items)
+  /\ e.op = "after" =>
+       /\ e.res.kind = res'.kind
+       /\ res'.kind = "items" => e.res.items = Item2(res'.items)
+  \* a step of a ranging: the item of the copy taken when the ranging began, the end, or the error
+  /\ e.op \in {"ibegin", "inext"} =>
+       /\ e.res.kind = res'.kind
+       /\ res'.kind = "item" => e.res.items = Item2(<<res'.item>>)
 
 TReset == /\ open' = {} /\ first' = [p \in Pairs |-> 0] /\ data' = [p \in Pairs |-> <<>>]
           /\ nBytes' = 0 /\ maxBytes' = DefaultMax
           /\ appended' = [p \in Pairs |-> <<>>] /\ lastSz' = 0 /\ cnt' = 0
           /\ res' = [kind |-> "none"] /\ panicked' = FALSE
+          /\ its' = [k \in Iters |-> NoIter]
 
 TStep(e) ==
   /\ e.panic = ""
@@ -33,6 +38,11 @@ TStep(e) ==
        [] e.op = "after"  -> After(e.s, e.t, e.idx)
        [] e.op = "setmax" -> SetMax(e.max)
        [] e.op = "closed" -> Closed(e.s)
+       [] e.op = "iget"   -> Get(e.k, e.s, e.t, e.idx)
+       [] e.op = "ibegin" -> Begin(e.k)
+       [] e.op = "inext"  -> IterNext(e.k)
+       [] e.op = "istop"  -> Stop(e.k)
+       [] e.op = "idrop"  -> Drop(e.k)
   /\ StateMatches(e) /\ ResMatches(e)
 
 TInit == Init /\ l = 1 /\ MarkInit
